@@ -144,3 +144,25 @@ spec fn paths_ok(s: Strat) -> bool { match s { Strat::Custom(ps) => forall|i: in
 spec fn finalized(s: Strat) -> Strat { match s { Strat::Custom(ps) => Strat::Custom(ps.map_values(|p: Seq<char>| p.skip(2))), _ => s } }
 broadcast axiom fn axiom_contains_refstr<'a, 'b>(s: Seq<&'a str>, x: &'b str)
     ensures #[trigger] slice_contains_spec::<&str>(s, x) == refstrs(s).contains(x@);
+// ---- `_sd` list shape, decoys (C12, C05) ----
+// number of members among the first n that the strategy designates as hidden
+spec fn hidden_cnt(m: Seq<(Seq<char>, J)>, s: Strat, n: nat) -> nat decreases n {
+    if n == 0 || n > m.len() { 0 } else { hidden_cnt(m, s, (n - 1) as nat) + (if sd_spec(s, m[n - 1].0) { 1nat } else { 0nat }) }
+}
+spec fn str_js(ss: Seq<Seq<char>>) -> Seq<J> { ss.map_values(|s: Seq<char>| J::Str(s)) }
+// the object's `_sd` member, if any, is a non-empty array of strings in sorted order (so the order of the list is a function
+// of the digest multiset alone: it reveals neither member order nor which entries are decoys)
+spec fn sd_list_ok(o: Seq<(Seq<char>, J)>) -> bool {
+    match j_get(o, K_SD()) {
+        None => true,
+        Some(J::Arr(a)) => a.len() > 0 && exists|ss: Seq<Seq<char>>| a == str_js(ss) && sorted_strs(ss),
+        Some(_) => false,
+    }
+}
+spec fn sd_list_len(o: Seq<(Seq<char>, J)>) -> nat { match j_get(o, K_SD()) { Some(J::Arr(a)) => a.len(), _ => 0 } }
+proof fn lemma_sd_list_ok_sorted(o: Seq<(Seq<char>, J)>, ss: Seq<Seq<char>>)
+    requires o.len() > 0, o[0].0 == K_SD(), o[0].1 == J::Arr(str_js(ss)), sorted_strs(ss), ss.len() > 0
+    ensures sd_list_ok(o), sd_list_len(o) == ss.len()
+{
+    lemma_j_idx0(o, K_SD());
+}
